@@ -117,6 +117,20 @@ var keyAssign = []opt{
 	{"ondup_multi_row", "INSERT INTO t (id, k) VALUES ({K1}, 1), ({K2}, 2) ON DUPLICATE KEY UPDATE id = {K5}"},
 	{"ondup_values_fn", "INSERT INTO t (id, k) VALUES ({K1}, 1) ON DUPLICATE KEY UPDATE id = VALUES(id) + 1"},
 	{"ondup_db_table", "INSERT INTO db.t (id, k) VALUES ({K1}, 1) ON DUPLICATE KEY UPDATE id = {K5}"},
+	// other value expressions on the right-hand side (added after seeded change c05-2 was
+	// missed: the assigned VALUE must not matter, any assignment to the sharding column is refused)
+	{"ondup_values_other_col", "INSERT INTO t (id, k) VALUES ({K1}, 1) ON DUPLICATE KEY UPDATE id = VALUES(k)"},
+	{"ondup_values_same_col", "INSERT INTO t (id, k) VALUES ({K1}, 1) ON DUPLICATE KEY UPDATE id = VALUES(id)"},
+	{"ondup_values_second", "INSERT INTO t (id, k) VALUES ({K1}, 1) ON DUPLICATE KEY UPDATE k = VALUES(k), id = VALUES(k)"},
+	{"ondup_values_set_form", "INSERT INTO t SET id = {K1}, k = 1 ON DUPLICATE KEY UPDATE id = VALUES(k)"},
+	{"ondup_column_ref", "INSERT INTO t (id, k) VALUES ({K1}, 1) ON DUPLICATE KEY UPDATE id = k"},
+	{"ondup_null", "INSERT INTO t (id, k) VALUES ({K1}, 1) ON DUPLICATE KEY UPDATE id = NULL"},
+	{"ondup_function", "INSERT INTO t (id, k) VALUES ({K1}, 1) ON DUPLICATE KEY UPDATE id = abs({K5})"},
+	{"update_column_ref", "UPDATE t SET id = k WHERE k = 1"},
+	{"update_null", "UPDATE t SET id = NULL WHERE k = 1"},
+	{"update_function", "UPDATE t SET id = abs({K5}) WHERE k = 1"},
+	{"update_default", "UPDATE t SET id = DEFAULT WHERE k = 1"},
+	{"update_same_value", "UPDATE t SET id = id WHERE k = 1"},
 }
 
 func subst(s, qual string, l rig.Layout) string {
